@@ -486,6 +486,16 @@ def rule_call_signature(check):
     cal = [n for n in events if ev_name(n) == "get_ident_used_in_assignation"]
     for n in cal:
         op = hir.peel(hir.call_args(n)[1])
+        for _ in range(3):
+            # `&member` where `let member = Expr::Member(..)` (never reassigned) is that constructor
+            while op.get("k") == "AddrOf":
+                op = hir.peel(op.get("e") or op.get("x"))
+            l_ = hir.local_of(op) if op.get("k") == "Path" else None
+            b_ = f.bindings().get(l_[0]) if l_ else None
+            if b_ and b_["origin"][0] == "let" and b_["origin"][1] is not None and not f.assignments_to(l_[0]):
+                op = hir.peel(b_["origin"][1])
+            else:
+                break
         cn = _ctor_name(op)
         check.expect((cn or "").endswith("Expr::Member"), R, R + "/callee-is-member", hir.loc(n), "the callee temporary holds the member expression (function actually invoked)", "callee argument is built from %s" % hir.describe(op))
     push = [n for n in events if ev_name(n) == "push"]
@@ -529,9 +539,17 @@ def rule_call_signature(check):
     if ok:
         h, n0 = fe[0]
         x = hir.peel(hir.call_args(n0)[0])
-        while x.get("k") == "MethodCall":
-            chain.append(x["method"])
-            x = hir.peel(x["recv"])
+        for _ in range(3):
+            while x.get("k") == "MethodCall":
+                chain.append(x["method"])
+                x = hir.peel(x["recv"])
+            # `let it = <call>.args.iter_mut(); for a in it { .. }`: the iterator through a never-reassigned local
+            lx_ = hir.local_of(x) if x.get("k") == "Path" else None
+            b_ = h.bindings().get(lx_[0]) if lx_ else None
+            if b_ and b_["origin"][0] == "let" and b_["origin"][1] is not None and not h.assignments_to(lx_[0]):
+                x = hir.peel(b_["origin"][1])
+                continue
+            break
         src_ok = (hir.place(x) or "").endswith(".args")
         lx = hir.local_of(x)
         if not src_ok and h is not g and lx and h.bindings()[lx[0]]["origin"][0] == "param":
@@ -1114,6 +1132,181 @@ def rule_order(check):
         check.expect(lo == {"left"} and ro == {"right"}, R, R + "/assign-operands", hir.loc(n), "a += b is treated as a + b", "+= builds the binary expression from left=%s right=%s" % (lo, ro))
 
 
+_TIGHT_CTORS = {"Paren", "Ident", "Lit", "Call", "Member", "Array", "Object", "Tpl", "This", "New", "Null", "Str", "Num"}
+
+
+def _operand_cases(prog, f, e, depth=0, seen=None):
+    """how an operand of a synthesised binary expression is obtained, case by case:
+    ('fresh', ctor) - built here; ('target', ty) - an assignment target (LeftHandSideExpression);
+    ('input', guarded) - an expression of the input placed as written (guarded: on a path that excludes
+    a binary expression); ('?', what)"""
+    from .prov import return_exprs, value_exprs
+
+    seen = seen if seen is not None else set()
+    e0 = e
+    e = hir.peel(e)
+    # clone()/into()/Box::new(..)/Expr::from around the value
+    while hir.is_call(e) and (hir.callee_name(e) or e.get("method")) in ("clone", "into", "new", "from", "to_owned", "as_ref", "deref") and hir.call_args(e):
+        if (hir.callee_name(e) or e.get("method")) == "new" and "Box" not in ((e.get("callee") or {}).get("path") or "") + ((e.get("callee") or {}).get("resolved") or ""):
+            break
+        e = hir.peel(hir.call_args(e)[-1] if (hir.callee_name(e) or e.get("method")) in ("new", "from") else hir.call_args(e)[0])
+    k = e.get("k")
+    is_ctor_call = hir.is_call(e) and "Ctor" in ((e.get("callee") or {}).get("kind") or "")
+    if k == "Struct" or is_ctor_call:
+        path = (e.get("callee") or {}).get("path") if is_ctor_call else (e.get("res") or {}).get("path") or ""
+        nm = path.split("::")[-1].replace("Expr", "").replace("Lit", "") or path.split("::")[-1]
+        # Expr::Paren(ParenExpr {..}): the variant says what the node is
+        return [("fresh", nm)] if nm in _TIGHT_CTORS else [("?", "a %s built here" % nm)]
+    if k in ("If", "Match", "BlockExpr", "Block"):
+        out = []
+        for v in value_exprs(e):
+            out += _operand_cases(prog, f, v, depth, seen)
+        if out:
+            return out
+    if hir.is_call(e):
+        g = prog.resolve_local(e)
+        if g is not None and depth < 3 and g.def_path not in seen:
+            out = []
+            for r in return_exprs(g.body):
+                out += _operand_cases(prog, g, r, depth + 1, seen | {g.def_path})
+            return out or [("?", "call of %s" % g.name)]
+        nm = hir.callee_name(e) or e.get("method") or "?"
+        if nm in ("get_dd_paren_expr", "get_dd_call_expr"):
+            return [("fresh", "Call")]
+        return [("?", "call of %s" % nm)]
+    loc = hir.local_of(e) if k == "Path" else None
+    if loc and loc[0] in f.bindings():
+        b = f.bindings()[loc[0]]
+        if b["origin"][0] == "let" and b["origin"][1] is not None and ("let", loc[0]) not in seen:
+            return _operand_cases(prog, f, b["origin"][1], depth, seen | {("let", loc[0])})
+    ty = re.sub(r"^&(mut )?", "", e.get("ty") or "")
+    if "SimpleAssignTarget" in ty or "AssignTarget" in ty:
+        return [("target", ty.split("::")[-1])]
+    if k in ("Path", "Field", "Unary", "Index") or hir.place(e):
+        atoms = gate.atoms_at(f, e0)
+        guarded = gate.has_call_gate(atoms, "is_bin", False)
+        for c_ in f.conds_at(e0):
+            if c_["t"] == "pat" and c_["v"] is False and str(hir.pat_variant(c_["pat"])).endswith("Expr::Bin"):
+                # excluded: every binary expression, or the sums (the only binary expressions the operand
+                # handler keeps in place - KEPT-IN-PLACE)
+                import json as _json
+
+                ops = set(re.findall(r"BinaryOp::(\w+)", _json.dumps(c_["pat"])))
+                if ops <= {"Add"}:
+                    guarded = True
+        return [("input", guarded)]
+    return [("?", hir.describe(e)[:60])]
+
+
+def rule_synth_operands(check):
+    R = "GROUP"
+    prog = check.prog
+    lits = []
+    for f in prog.user_fns:
+        if f.rec.get("in_test"):
+            continue
+        for n in f.nodes():
+            if n.get("k") == "Struct" and ((n.get("res") or {}).get("path") or "").split("::")[-1] == "BinExpr":
+                lits.append((f, n))
+    check.floor(R, "binary expressions built by the transforms", len(lits), 2)
+    for f, n in lits:
+        flds = {x["name"]: x["e"] for x in n["fields"]}
+        for side in ("left", "right"):
+            if side not in flds:
+                continue
+            cases = _operand_cases(prog, f, flds[side])
+            bad = [c for c in cases if c[0] == "?" or (c[0] == "input" and not c[1])]
+            key = "%s/synth-operand/%s/%s" % (R, f.name, side)
+            check.expect(not bad, R, key, hir.loc(n), "the %s operand of the binary expression built in %s is a primary expression, an assignment target, or an input expression that is not itself a binary expression (%s)" % (side, f.name, sorted(set(str(c[0]) for c in cases))), "the %s operand of the binary expression built in %s is an expression of the input placed as written (%s): the printer adds no parentheses, so a sum there regroups - `a += 1 + 2` is emitted as `t + 1 + 2`, which is `(t + 1) + 2`" % (side, f.name, sorted(set("%s:%s" % c for c in bad))))
+
+
+HOOK_BUILDERS = ("get_dd_paren_expr", "get_dd_call_expr")
+
+
+def _arg_list_source(prog, f, a, depth=0):
+    """where the list handed over as hook arguments comes from: 'accumulator' (a list some function was lent
+    mutably, or that a helper handed back - filled while the operands were replaced), ('param', i) forwarded,
+    or ('literal', description): a list written down on the spot that nothing else ever touched"""
+    e = hir.peel(a)
+    while e.get("k") in ("AddrOf", "Unary") or (hir.is_call(e) and (hir.callee_name(e) or e.get("method")) in ("as_slice", "as_ref", "deref", "as_mut_slice", "borrow") and hir.call_args(e)):
+        e = hir.peel(e.get("e") or e.get("x") or hir.call_args(e)[0]) if e.get("k") in ("AddrOf", "Unary") else hir.peel(hir.call_args(e)[0])
+    base = e
+    while base.get("k") == "Field":
+        base = hir.peel(base["x"])
+    loc = hir.local_of(base) if base.get("k") == "Path" else None
+    if not loc or loc[0] not in f.bindings():
+        return "accumulator" if e.get("k") not in ("Array",) else ("literal", hir.describe(e)[:70])
+    b = f.bindings()[loc[0]]
+    if b["origin"][0] == "param" and base is e:
+        return ("param", b["origin"][1])
+    # lent mutably to anything (the operand handler, the identifier provider, push ..)?
+    for n in f.nodes():
+        if n.get("k") == "AddrOf" and n.get("mut") is True:
+            inner = hir.peel(n.get("e") or n.get("x") or {})
+            while inner.get("k") == "Field":
+                inner = hir.peel(inner["x"])
+            l2 = hir.local_of(inner) if inner.get("k") == "Path" else None
+            if l2 and l2[0] == loc[0]:
+                return "accumulator"
+        if n.get("k") == "MethodCall" and n.get("method") in ("push", "extend", "append", "insert", "extend_from_slice"):
+            inner = hir.peel(n["recv"])
+            while inner.get("k") in ("Field", "AddrOf"):
+                inner = hir.peel(inner.get("x") or inner.get("e"))
+            l2 = hir.local_of(inner) if inner.get("k") == "Path" else None
+            if l2 and l2[0] == loc[0]:
+                return "accumulator"
+    if b["origin"][0] == "let" and b["origin"][1] is not None and base is e:
+        init = hir.peel(b["origin"][1])
+        d_ = hir.describe(init)
+        if init.get("k") == "Array" or "into_vec" in d_[:80] or "box_assume_init_into_vec" in d_[:80]:
+            return ("literal", "Array" if init.get("k") == "Array" else "vec![..]")
+        if depth < 3 and init.get("k") in ("Path", "AddrOf"):
+            return _arg_list_source(prog, f, init, depth + 1)
+    return "accumulator"
+
+
+def rule_hook_args_source(check):
+    R = "HOOK-ARGS"
+    check.rule(R, "the argument list handed to a hook builder (get_dd_paren_expr / get_dd_call_expr) is the accumulator that the operand handler and the identifier provider filled while they replaced the operands of the very expression handed over with it (a local `Vec::new()` passed on by `&mut`, or a parameter forwarded from such a site): never a list put together on the spot from copies of the input's operands - those operands would stay in place in the wrapped expression *and* be evaluated a second time only to tell the hook their value")
+    prog = check.prog
+    sites = []
+    for f in prog.user_fns:
+        if f.rec.get("in_test"):
+            continue
+        for n in f.nodes():
+            if hir.is_call(n) and (hir.callee_name(n) or "") in HOOK_BUILDERS and prog.resolve_local(n) is not None:
+                sites.append((f, n))
+    check.floor(R, "hook builder call sites", len(sites), 4)
+
+    def judge(f, n, idx, depth=0):
+        a = hir.call_args(n)
+        if idx >= len(a):
+            return ["?"]
+        src = _arg_list_source(prog, f, a[idx])
+        if src == "accumulator":
+            return []
+        if isinstance(src, tuple) and src[0] == "literal":
+            return ["%s written down in %s, never lent to the operand handler" % (src[1], f.name)]
+        if isinstance(src, tuple) and depth < 3:
+            ups = [(cf, c) for cf, c in prog.sites_calling(f) if hir.is_call(c)]
+            if not ups:
+                return ["parameter %s of %s, which nothing calls" % (src[1], f.name)]
+            out = []
+            for cf, c in ups:
+                out += judge(cf, c, src[1], depth + 1)
+            return out
+        return ["%s in %s" % (src, f.name)]
+
+    for f, n in sites:
+        g = prog.resolve_local(n)
+        idxs = [i for i, p in enumerate(g.rec.get("params") or []) if "ExprOrSpread" in (p.get("ty") or "")]
+        if len(idxs) != 1:
+            check.bad(R, "%s/%s/signature" % (R, f.name), hir.loc(n), "%s has no single argument-list parameter" % g.name)
+            continue
+        bad = judge(f, n, idxs[0])
+        check.expect(not bad, R, "%s/%s/%s" % (R, f.name, g.name), hir.loc(n), "the hook arguments are the accumulator filled while the operands were replaced", "the hook arguments given to %s are not the operand accumulator: %s - the operands listed there are still in place in the wrapped expression, so each is evaluated twice and the hook is told the value of the second evaluation" % (g.name, "; ".join(sorted(set(bad)))))
+
+
 def rule_hoist_paren(check):
     R = "GROUP"
     check.rule(R, "an operand hoisted into `temp = <operand>` moves from an Expression / AssignmentExpression position into an AssignmentExpression position: the only extra shape is a top-level comma expression, which must be parenthesised (everything else hoisted is placed as primary expressions: identifiers, literals, parenthesised sequences)")
@@ -1157,6 +1350,8 @@ def rule_hoist_paren(check):
 
         kinds2 = []
         for r in rets:
+            # the conditions under which this result is the one returned (an if / match chain around it)
+            prem_r = list(BF.from_conds(f, [c_ for c_ in f.conds_at(r) if c_["t"] != "closure"], atomize_r, prog) or [])
             for fml, v in value_cases(prog, f, r, atomize_r):
                 if v is None:
                     kinds2.append(("?", "?"))
@@ -1165,10 +1360,10 @@ def rule_hoist_paren(check):
                 for root, proj in os_:
                     if root[0] == "ctor":
                         shape = root[1].split("::")[-1].replace("Lit", "").replace("Expr", "") or root[1].split("::")[-1]
-                        how = "spread" if BF.entails([fml], BF.atom(KPRE + "Spread"), exhaustive=KEXH) else ("seq" if BF.entails([fml], SEQ, exhaustive=KEXH) else "?")
+                        how = "spread" if BF.entails(prem_r + [fml], BF.atom(KPRE + "Spread"), exhaustive=KEXH) else ("seq" if BF.entails(prem_r + [fml], SEQ, exhaustive=KEXH) else "?")
                         kinds2.append((shape, how))
                     elif root[0] == "param" and root[2] == 1:
-                        kinds2.append(("bare", "not-seq" if BF.entails([fml], BF.neg(SEQ), exhaustive=KEXH) else "unguarded"))
+                        kinds2.append(("bare", "not-seq" if BF.entails(prem_r + [fml], BF.neg(SEQ), exhaustive=KEXH) else "unguarded"))
                     else:
                         kinds2.append((origin_str((root, proj)), "?"))
         if set(kinds2) == want:
@@ -1842,7 +2037,12 @@ def rule_optchain_link_flag(check):
     check.ok(R, R + "/scan", "-", "%d lowering helpers scanned" % n_fn)
 
 
-def rule_fresh_temp(check):
+def rule_assigned_in_sequence(check):
+    """the C06 reading of FRESH-TEMP ("assigned before it is read")"""
+    return rule_fresh_temp(check, only_out_of_sequence=True)
+
+
+def rule_fresh_temp(check, only_out_of_sequence=False):
     """FRESH-TEMP: one temporary per captured operand position."""
     R = "FRESH-TEMP"
     check.rule(R, "every identifier returned by get_temporal_ident_used_in_assignation is an Ident built on that very path (in the function or in a helper it calls) whose name comes from get_dd_local_variable_name(self.next_ident(), ..), and exactly one assignment `that identifier = <capture of the operand>` is pushed to `assignations` on that path: two operand positions never share a temporary (a shared capture is read at the wrong time and erasure cannot tell the positions apart)")
@@ -1944,6 +2144,32 @@ def rule_fresh_temp(check):
         elif not captured_ok:
             why.append("the captured value is not the operand")
         ok = not why
+        if only_out_of_sequence:
+            # hygiene only asks that the temporary is assigned before it is read: one handed out again without an
+            # assignment is fine when it is taken from the assignments collected for *this* operation (they sit
+            # earlier in the same comma sequence and always run first), not when it is remembered by the provider
+            def _from_acc(o, depth=0):
+                root = o[0]
+                if root[0] == "param":
+                    # the accumulator of assignments, by its type (in the helper itself or in a function it is
+                    # handed on to): `&mut Vec<Expr>` / `&[Expr]`
+                    f2 = prog.by_def.get(root[1])
+                    prm = f2.rec["params"][root[2]] if f2 is not None and root[2] < len(f2.rec["params"]) else None
+                    ty_ = re.sub(r"^&(mut )?", "", (prm or {}).get("ty") or "")
+                    return ty_ in ("std::vec::Vec<swc_ecma_ast::Expr>", "[swc_ecma_ast::Expr]")
+                if root[0] == "call" and len(root) >= 5 and depth < 4:
+                    h_, n_ = _node(root)
+                    if n_ is not None and hir.call_args(n_):
+                        ro = pv.origins(h_, hir.call_args(n_)[0], root[4])
+                        # (the accumulator stands for its elements too: the assignments pushed into it)
+                        elem = lambda o2: o2[0][0] == "ctor" and o2[0][1].split("::")[-1] in ("Assign", "AssignExpr")
+                        return any(_from_acc(o2, depth + 1) for o2 in ro) and all(_from_acc(o2, depth + 1) or elem(o2) for o2 in ro)
+                return False
+
+            stale = [o for o in os_ if o[0] not in idents and not _from_acc(o)]
+            ok = ok or pushed == 1 or not stale
+            check.expect(ok, R, "%s/return-%d/assigned" % (R, i) if i else R + "/return/assigned", hir.loc(r), "the temporary handed out is assigned on this path, or taken from the assignments of this very operation", "get_temporal_ident_used_in_assignation hands out a temporary without assigning it, and takes it from the provider's own state (%s) rather than from the assignments collected for this operation: on a path of the rewritten expression that skips the earlier use (`&&`, `||`, `?:`) it is read before it is assigned" % ", ".join(sorted(origin_str(o) for o in stale)))
+            continue
         check.expect(ok, R, "%s/return-%d" % (R, i) if i else R + "/return", hir.loc(r), "returns the identifier of the one fresh assignment pushed on this path", "get_temporal_ident_used_in_assignation can hand out a temporary that is not fresh for this operand position (%s): operands share a capture" % "; ".join(why))
 
 
